@@ -58,7 +58,7 @@ fn concurrency_ok(s: Lic) -> bool {
     s.opened - s.closed <= s.local_max_open
 }
 
-//@ harness props=C03 tier=quick level=bounded timeout=400 bound="parked wakers=0"
+//@ harness props=C03 tier=quick level=bounded timeout=300 bound="parked wakers=0"
 //@ fn LocalInitiated::on_max_streams
 //@ fn LocalInitiated::wake_unblocked
 #[kani::proof]
@@ -84,7 +84,7 @@ fn vq_c03_lic_on_max_streams() {
     kani::cover!(new.peer_max == MAX_STREAMS as i128, "reach:two_pow_60");
 }
 
-//@ harness props=C03 tier=quick level=bounded timeout=400 bound="parked wakers=0"
+//@ harness props=C03 tier=quick level=bounded timeout=300 bound="parked wakers=0"
 //@ fn LocalInitiated::poll_open_stream
 //@ fn LocalInitiated::available_stream_capacity
 //@ fn LocalInitiated::peer_capacity
@@ -137,7 +137,7 @@ fn vq_c03_lic_on_open_stream() {
     kani::cover!(new.opened - new.closed == new.local_max_open, "reach:local_limit_reached");
 }
 
-//@ harness props=C03 tier=quick level=bounded timeout=400 bound="parked wakers=0"
+//@ harness props=C03 tier=quick level=bounded timeout=300 bound="parked wakers=0"
 //@ fn LocalInitiated::on_close_stream
 //@ fn LocalInitiated::wake_unblocked
 #[kani::proof]
